@@ -125,7 +125,7 @@ def access_program(rng):
     U = rng.pick(["i32", "u8", "u32"])
     n = 2 + rng.below(3)
     r_, c_ = 2 + rng.below(2), 2 + rng.below(3)
-    shape = rng.pick(["A1", "A2", "S1", "AS", "SS", "AP"])
+    shape = rng.pick(["A1", "A2", "S1", "AS", "SS", "AP", "PS"])
     tags = [shape, T]
 
     def lit(t, v):
@@ -136,6 +136,7 @@ def access_program(rng):
     decls = []
     decls.append("struct S\n{\n\tarr: [%d]%s,\n\tvalue: %s,\n}" % (n, T, U))
     decls.append("struct O\n{\n\tinner: S,\n\titems: [2]S,\n\ttail: %s,\n}" % T)
+    decls.append("struct P\n{\n\ta: u8,\n\tpa: &[%d]%s,\n}" % (n, T))
     # helper functions (a menu; only some are called)
     fns = """
 fn set_elem(x: &[%(n)d]%(T)s, i: usize, v: %(T)s)
@@ -198,6 +199,34 @@ fn s_arr_len(s: &S) -> usize
 {
 	return: |s.arr|
 }
+fn s_arr_len_view(s: S) -> usize
+{
+	return: |s.arr|
+}
+fn p_get(os: []P, k: usize, i: usize) -> %(T)s
+{
+	return: os[k].pa[i]
+}
+fn p_get_sp(os: &[]P, k: usize, i: usize) -> %(T)s
+{
+	return: os[k].pa[i]
+}
+fn p_len(os: []P, k: usize) -> usize
+{
+	return: |os[k].pa|
+}
+fn p_set(os: &[]P, k: usize, i: usize, v: %(T)s)
+{
+	os[k].pa[i] = v;
+}
+fn p_one_len(o: P) -> usize
+{
+	return: |o.pa|
+}
+fn as_arr_len(xs: []S, k: usize) -> usize
+{
+	return: |xs[k].arr|
+}
 fn set_as(xs: &[]S, k: usize, i: usize, v: %(T)s)
 {
 	xs[k].arr[i] = v;
@@ -235,6 +264,13 @@ fn get_as_value(xs: []S, k: usize) -> %(U)s
     elif shape == "AS":
         root = [new_s(), new_s()]
         body.append("\tvar d: [2]S = [%s, %s];" % (s_lit(root[0]), s_lit(root[1])))
+    elif shape == "PS":
+        # structures with a pointer member that points to an array, in an array (passed as a slice)
+        rows = [[val() for _ in range(n)] for _ in range(2)]
+        root = rows
+        for k in range(2):
+            body.append("\tvar r%d: [%d]%s = [%s];" % (k, n, T, ", ".join(lit(T, v) for v in rows[k])))
+        body.append("\tvar d: [2]P = [P { a: 1, pa: &r0 }, P { a: 2, pa: &r1 }];")
     elif shape == "AP":
         # an array of pointers to structures (and one of pointers to arrays): the pointees are variables of their own
         root = [new_s(), new_s()]
@@ -287,7 +323,9 @@ fn get_as_value(xs: []S, k: usize) -> %(U)s
         how = rng.pick(["direct", "getter"])
         tags.append("r:s.value:" + how)
         out.append(("%s.value" % sp if how == "direct" else "get_s_value(%s)" % sp, U, so["value"], w0 + n))
-        out.append(("|%s.arr|" % sp if (rng.chance(1, 2) or not addr) else "s_arr_len(&%s)" % sp, "usize", n, 1))
+        lhow = rng.pick(["direct", "view", "pointer"] if addr else ["direct", "view"])
+        tags.append("r:s.arr.len:" + lhow)
+        out.append(({"direct": "|%s.arr|", "view": "s_arr_len_view(%s)", "pointer": "s_arr_len(&%s)"}[lhow] % sp, "usize", n, 1))
         return out
     for _ in range(3 + rng.below(5)):
         if shape == "A1":
@@ -304,6 +342,13 @@ fn get_as_value(xs: []S, k: usize) -> %(U)s
             body.append("\td[%s][%s] = %s;" % (us(i), us(j), lit(T, v)) if how == "direct" else "\tset_cell(&d, %s, %s, %s);" % (us(i), us(j), lit(T, v)))
         elif shape == "S1":
             write_s("d", root)
+        elif shape == "PS":
+            k, i, v = rng.below(2), rng.below(n), val()
+            rows[k][i] = v
+            how = rng.pick(["direct", "setter", "pointee"])
+            tags.append("w:ps:" + how)
+            body.append({"direct": "\td[%s].pa[%s] = %s;" % (us(k), us(i), lit(T, v)), "setter": "\tp_set(&d, %s, %s, %s);" % (us(k), us(i), lit(T, v)),
+                         "pointee": "\tr%d[%s] = %s;" % (k, us(i), lit(T, v))}[how])
         elif shape == "AP":
             k = rng.below(2)
             c = rng.below(4)
@@ -369,7 +414,18 @@ fn get_as_value(xs: []S, k: usize) -> %(U)s
                 for i in range(n):
                     reads.append(("get_as(&d, %s, %s)" % (us(k), us(i)), T, root[k]["arr"][i], 1 + k * (n + 1) + i))
                 reads.append(("get_as_value(d, %s)" % us(k), U, root[k]["value"], 1 + k * (n + 1) + n))
+                reads.append(("as_arr_len(d, %s)" % us(k), "usize", n, 1))
         reads.append(("|d|", "usize", 2, 1))
+    elif shape == "PS":
+        for k in range(2):
+            for i in range(n):
+                how = rng.pick(["direct", "getter", "sp-getter", "pointee"])
+                tags.append("r:ps:" + how)
+                reads.append(({"direct": "d[%s].pa[%s]" % (us(k), us(i)), "getter": "p_get(d, %s, %s)" % (us(k), us(i)),
+                               "sp-getter": "p_get_sp(&d, %s, %s)" % (us(k), us(i)), "pointee": "r%d[%s]" % (k, us(i))}[how], T, rows[k][i], 1 + k * n + i))
+            lh = rng.pick(["direct", "getter", "one"])
+            tags.append("r:ps.len:" + lh)
+            reads.append(({"direct": "|d[%s].pa|" % us(k), "getter": "p_len(d, %s)" % us(k), "one": "p_one_len(d[%s])" % us(k)}[lh], "usize", n, 1))
     elif shape == "AP":
         for k in range(2):
             reads += read_s("d[%s]" % us(k) if rng.chance(2, 3) else "s%d" % k, root[k], 1 + k * (n + 1), addr=False)
